@@ -541,6 +541,22 @@ def str_len(s):
     raise Unsupported(f'length of {s!r}')
 
 
+StrTrim = z3.Function('str_trim', StrSort, StrSort)            # an opaque string without its surrounding whitespace
+StrOuterWs = z3.Function('str_has_outer_whitespace', StrSort, z3.BoolSort())
+
+
+def m_str_trim_opaque(ex, args, callee):
+    """trim / trim_start / trim_end of an opaque string: the same string when it has no surrounding whitespace, another one otherwise"""
+    s = dv(args[0])
+    if isinstance(s, str): return {'trim': s.strip, 'trim_start': s.lstrip, 'trim_end': s.rstrip}[callee.split('::')[-1]]()
+    if not isinstance(s, SymStr): raise Unsupported(f'{callee} of {s!r}')
+    if ex.truth(StrOuterWs(s.term)):
+        t = StrTrim(s.term)
+        ex.assume(t != s.term)
+        return SymStr(t)
+    return s
+
+
 def m_str_len(ex, args, callee):
     s = dv(args[0])
     n = str_len(s)
@@ -784,6 +800,7 @@ BASE_MODELS = [
     (r'(str|String) as Index<', m_str_index),
     (r'<impl str>::is_empty$|String::is_empty$', lambda ex, a, c: m_str_len(ex, a, c) == 0),
     (r'<impl str>::len$|String::len$', m_str_len),
+    (r'<impl str>::trim$|<impl str>::trim_start$|<impl str>::trim_end$', m_str_trim_opaque),
     (r'Argument::<.*>::new_\w+(::<.*>)?$', m_fmt_argument),
     (r'Arguments::<.*>::(new|from_str|new_const|new_v1)', m_fmt_arguments),
     (r'^core::fmt::rt::', lambda ex, a, c: Opaque('fmt')),
